@@ -6,6 +6,7 @@
 //	    lit, const, norm, idf, score, explain, composite, constant, law
 //	(b) real searches on small generated in-memory corpora, with and without ExplainScores:
 //	    script line `search <corpus> <query> <all|top>` -> one `hit <corpus> <query> <kind> <docid>` pair per hit
+//	    (and, for `all`, one `matchset <corpus> <query> all` pair: the ids of the documents that matched)
 //
 // Floats travel as 16 hex digits of math.Float64bits; an explanation tree as {<value bits>;<message>;<child>…}.
 package main
@@ -32,7 +33,8 @@ func (h) Rule() string {
 	return "direct calls: statistics from boundary sets (n=1, n=N, n>N wrap-around, N up to 2^64-1; f from 0 and 1 to 2^63-1; dl 0 … float32 extremes; " +
 		"avgdl/k1/b/boost incl. b=0, b=1, tiny and huge) crossed, plus seeded log-uniform random ones; law lines pair two statistics that differ in exactly one " +
 		"component; searches: seeded corpora of 1-10 documents (1-3 batches, two fields, empty and missing fields, repeated words) with term and nested boolean " +
-		"queries (must/should/must-not, minShould, boosts on every level), each run with and without ExplainScores, one line per hit; a case is non-trivial when " +
+		"queries (must/should/must-not, minShould, boosts on every level), each run with and without ExplainScores, one line per hit plus one line with the set of " +
+		"matching documents; a case is non-trivial when " +
 		"its op line is new and (for hits) the document matched through at least one scoring term"
 }
 
@@ -576,7 +578,7 @@ func (h) Exec(line string, out func(string, string), st *hlib.Stats, work string
 	w := strings.Split(line, " ")
 	st.Count("op:" + w[0])
 	switch w[0] {
-	case "search", "hit":
+	case "search", "hit", "matchset":
 		only := ""
 		if w[0] == "hit" {
 			only = w[4]
@@ -605,6 +607,21 @@ func (h) Exec(line string, out func(string, string), st *hlib.Stats, work string
 			st.Count("res:no-hit")
 		}
 		sort.Slice(with, func(i, j int) bool { return with[i].id < with[j].id })
+		if w[3] == "all" && (w[0] == "search" || w[0] == "matchset") {
+			// which documents matched at all (the per-hit lines below only speak about documents that were returned)
+			ids := make([]string, 0, len(with))
+			for _, x := range with {
+				ids = append(ids, x.id)
+			}
+			if len(ids) == 0 {
+				ids = []string{"-"}
+			}
+			out(fmt.Sprintf("matchset %s %s all", w[1], w[2]), strings.Join(ids, ","))
+			st.Count("res:matchset")
+		}
+		if w[0] == "matchset" {
+			return
+		}
 		for _, x := range with {
 			if only != "" && x.id != only {
 				continue
